@@ -48,14 +48,19 @@ def Box.extendPoints (b : Box α) (ps : List (Pt α)) : Box α := ps.foldl Box.e
 /-- `b.extendPointss(pss)` -/
 def Box.extendPointss (b : Box α) (pss : List (List (Pt α))) : Box α := pss.foldl Box.extendPoints b
 
-/-- `b.Extend(b2)`: nothing for a nil or empty `b2`, otherwise fold `b2.Min` and `b2.Max` in -/
+/-- `b.Extend(b2)`: nothing for a nil or empty `b2`; an empty receiver takes over `b2`
+(`b.Min, b.Max = b2.Min, b2.Max`); otherwise fold `b2.Min` and `b2.Max` in -/
 def Box.extend (b : Box α) (b2 : Option (Box α)) : Box α :=
   match b2 with
   | none => b
-  | some b2 => if b2.empty then b else (b.extendPoint b2.mn).extendPoint b2.mx
+  | some b2 =>
+    if b2.empty then b
+    else if b.empty then ⟨b2.mn, b2.mx⟩
+    else (b.extendPoint b2.mn).extendPoint b2.mx
 
-/-- `b.Overlaps(b2)` -/
+/-- `b.Overlaps(b2)`: `!b.Empty() && !b2.Empty() &&` the four comparisons -/
 def Box.overlaps (b b2 : Box α) : Bool :=
+  !b.empty && !b2.empty &&
   decide (b.mn.x ≤ b2.mx.x) && decide (b.mn.y ≤ b2.mx.y) &&
   decide (b2.mn.x ≤ b.mx.x) && decide (b2.mn.y ≤ b.mx.y)
 
